@@ -25,7 +25,15 @@ which helpers of the analysed class are called.
              buckets and the remembered target is in an arbitrary state) - and returns the fresh
              target unless it equals the remembered one and the caller does not insist.
   C04.STORE  whatever its shape (power / lower / upper bound present or not), the proposal handed to
-             calculate_target_power is a member of the bucket _calc_target_power is called with.
+             calculate_target_power is a member of the bucket _calc_target_power is called with - as that
+             object, or as a record (dataclasses.replace / re-construction) that says field by field
+             what the actor said: nothing of the call's context (system bounds, remembered target, the
+             actor's previous proposal) is frozen into what is stored; the other actors' stored
+             proposals are still there, unaltered.
+  C04.BUCKET the collection a group's live proposals are kept in is a container of the language (set /
+             list / dict, read through sorted / reversed), whose add / remove / iterate semantics every
+             rule above assumes; a container class defined in the analysed tree in that role is
+             reported: the property then rests on that class's correctness, which is not established.
   C04.REPORT _Report.adjust_to_bounds returns what clamp_to_bounds returns for the report's own
              fields; get_status reports the swept bounds with the system exclusion zone; the
              public `bounds` are those inclusion bounds.
@@ -42,7 +50,7 @@ from ..engine.report import AnalysisError, Run
 from ..engine.resolver import Program, walk_no_nested
 from ..engine.terms import Poly
 from ._c04_util import (
-    STOPPED, NotReached, instance_state, mk_system, with_op, LinInterp, StoreInterp, Sweep, compare_pairs, flip_strict, mirror, reach, splice, step_function, sweep_roles,
+    STOPPED, NotReached, bucket_values, find_holder, split_sweep, instance_state, mk_system, with_op, LinInterp, StoreInterp, Sweep, compare_pairs, flip_strict, mirror, reach, splice, step_function, sweep_roles,
     synth,
 )
 from .c03 import BASE, BOUNDS, MAT, _report_orderings, check_quantity_truthiness, mk_excl, mk_proposal
@@ -155,6 +163,38 @@ def possibly_inadmissible(it: OrderInterp, c: Any, L: Any, U: Any, excl: Any) ->
     return any(it.possible(inzone + [f]) for f in (("<", c, zero), ("<", zero, c), ("<", el, L), ("<", U, eu)))
 
 
+def record_diffs(it: OrderInterp, want: Any, got: Any, path: str = "") -> list[tuple[str, Any, Any]]:
+    """Fields (dotted) in which the record `got` does not say what the record `want` says: values of the
+    run are compared as the order domain sees them (the same input value, or two values the facts of
+    this path make equal).  Only fields the model of `want` carries are compared."""
+    if isinstance(want, Obj) and isinstance(got, Obj) and want.cls == got.cls:
+        out: list[tuple[str, Any, Any]] = []
+        for f, a in want.fields.items():
+            if f.startswith("__"):
+                continue
+            out.extend(record_diffs(it, a, got.fields.get(f, "<missing>"), f"{path}.{f}" if path else f))
+        return out
+    if want is got or (isinstance(want, Atom) and isinstance(got, Atom) and it.entails("=", want, got)):
+        return []
+    if not isinstance(want, (Atom, Obj)) and not isinstance(got, (Atom, Obj)) and type(want) is type(got) and want == got:
+        return []
+    return [(path or "value", want, got)]
+
+
+def altered_message(what: str, diffs: list[tuple[str, Any, Any]]) -> str:
+    """Message of C04.STORE for a stored record that differs from what its actor proposed."""
+    parts = "; ".join(f"{f} is {b!r} where the actor said {a!r}" for f, a, b in diffs)
+    origin = ""
+    if any(isinstance(b, Atom) and b.name.startswith("sys") for _f, _a, b in diffs):
+        origin = (" - a value of the system bounds of *this* call: the stored proposal outlives them, so after the "
+                  "system bounds move (batteries return, SoC-dependent bounds) both sweeps keep honouring the frozen "
+                  "value instead of 'current system bounds intersected with what the higher-priority actor asked for'")
+    return (f"{what} is kept in the bucket in an altered form: {parts}{origin}.  What is stored must be, field by "
+            "field, what the actor proposed - narrowing, defaulting, rounding or merging belongs to the sweep, "
+            "which sees the bounds of the call at hand (the same goes for clipping the preferred power, filling "
+            "missing bounds with the system's, or keeping parts of the actor's previous proposal)")
+
+
 def _same(it: OrderInterp, a: Any, b: Any) -> bool:
     if a is None or b is None:
         return a is None and b is None
@@ -164,6 +204,65 @@ def _same(it: OrderInterp, a: Any, b: Any) -> bool:
 
 
 # ---------------------------------------------------------------------------------------------
+BUCKETS = "_component_buckets"
+
+
+def check_bucket(run: Run, prog: Program) -> bool:
+    """C04.BUCKET  the collection that holds a group's live proposals is a container of the language.
+
+    Every other rule decides the sweeps *given* that the bucket behaves like a Python builtin: one member
+    per equality key, remove takes out exactly the equal member, iteration (through sorted / reversed)
+    yields every member.  For set / list / dict that is the language's business.  With a container class
+    defined in the analysed tree the same clauses ("the bounds of every higher-priority live proposal are
+    in force and reported") rest on that class's insert / delete / lookup / iteration being correct for
+    every size and history of the bucket - which no rule here establishes, so the construct is reported.
+    Returns False iff it reported (the abstract runs below cannot be carried out on such a bucket)."""
+    ct = prog.func(CTP)
+    st = prog.func(STAT)
+    owner = ct.cls
+    if owner is None:
+        raise AnalysisError(f"{ct.qual}: not a method")
+    loops = []
+    for entry in (ct, st):
+        try:
+            holder = find_holder(prog, entry)
+            loops.append((holder, split_sweep(holder)[1]))
+        except AnalysisError:
+            pass  # the sweep-level rules say what is wrong with the shape of the sweep
+    vals = bucket_values(prog, owner, BUCKETS, loops)
+    clean = True
+    seen: set[tuple[str, str]] = set()
+    for v in vals:
+        text = ast.unparse(v.site)
+        if (v.fn.qual, text) in seen:
+            continue
+        seen.add((v.fn.qual, text))
+        run.analysed(v.fn.qual)
+        if v.kind == "builtin":
+            run.ok("C04.BUCKET", f"{v.fn.qual} :: {text[:100]}")
+            continue
+        clean = False
+        c = v.cls
+        ops = ", ".join(m for m in sorted(c.methods) if not m.startswith("_") or m in (
+            "__iter__", "__reversed__", "__contains__", "__len__")) or "its methods"
+        run.violation(
+            "C04.BUCKET", v.fn.qual, text,
+            f"the live proposals of a component group are kept in `{c.name}` ({c.module.rel}), here {v.how}: "
+            f"`{ast.unparse(v.node)}`.  The sweeps are decided for a bucket with the semantics of a Python builtin "
+            "(set / list / dict read through sorted() or reversed()): one member per (priority, source) key, removal "
+            "takes out exactly the equal member, iteration yields every member in order.  With a container class "
+            f"defined in the repository, 'the target and the reported bounds honour the bounds of every "
+            f"higher-priority live proposal, and only of those' now depends on the correctness of {c.name} "
+            f"({ops}) for every size and every insert / delete history of the bucket, which nothing establishes: "
+            "a delete that drops, keeps or duplicates another element makes an actor's bounds vanish from - or "
+            "linger in - the target sweep and the report sweep alike.  (The same goes for any hand-written tree, "
+            "heap, linked list, evicting cache or set subclass with overridden add / remove in this role.)",
+            node=v.node, file=v.fn.file)
+    if not vals:
+        raise AnalysisError(f"{owner.qual}: no expression that creates a bucket of self.{BUCKETS} found (anchors moved?)")
+    return clean
+
+
 def check_keep(run: Run, prog: Program) -> None:
     fn = bounds_fn(prog, "adjust")
     analysed_reach(run, prog, fn)
@@ -595,6 +694,8 @@ def check_store(run: Run, prog: Program) -> None:
         sysb = Obj("SystemBounds", inclusion_bounds=Obj("Bounds", lower=sl, upper=su), exclusion_bounds=None)
         sc = it.choose(len(scenarios), "bucket before the call")
         p: Any = None
+        old: Any = None
+        other: Any = None
         if sc != 3:
             p = mk_proposal(it, tag="new")
             p.fields["priority"] = 3
@@ -613,7 +714,7 @@ def check_store(run: Run, prog: Program) -> None:
         # arbitrary state: whatever earlier calls may have left there must not decide anything
         so = instance_state(prog, ct.cls, _component_buckets=buckets,
                             _target_power={"ids": stored} if stored is not None else {})
-        ctx.update(p=p, so=so, stored=stored, must=must)
+        ctx.update(p=p, so=so, stored=stored, must=must, old=old, other=other)
         return dict(zip(ct.params, (so, "ids", p, sysb, must)))
 
     def post(res: Any) -> Any:
@@ -641,10 +742,31 @@ def check_store(run: Run, prog: Program) -> None:
                                         "sweep is run over: its bounds and preference are dropped (a proposal of this "
                                         "shape counts as a withdrawal), so lower priorities are no longer restricted "
                                         "by it"])
-            elif not any(x is p for x in members):
+            elif any(x is ctx["old"] for x in members if ctx["old"] is not None):
                 out["store"] = ("bad", ["the bucket the sweep is run over still holds the actor's previous proposal "
                                         "instead of the new one (set.add keeps an equal element): the stale bounds and "
                                         "preference stay in force"])
+            elif not any(x is p for x in members):
+                # a record built from the proposal stands in for it: it must say, field by field, what
+                # the actor said
+                q = next(x for x in members if isinstance(x, Obj) and it.key(x) == it.key(p))
+                diffs = record_diffs(it, p, q)
+                if diffs:
+                    out["store"] = ("bad", [altered_message("the proposal handed to calculate_target_power", diffs)])
+        if ctx["other"] is not None and it.visits:
+            o = ctx["other"]
+            kept = [x for x in it.visits[0] if isinstance(x, Obj) and it.key(x) == it.key(o)]
+            msg = None
+            if not kept:
+                msg = ("another actor's stored proposal is no longer in the bucket the sweep is run over after this "
+                       "call: only expiry (drop_old_proposals) and the actor's own next proposal may take it out; its "
+                       "bounds stop restricting the lower priorities and stop being reported to them")
+            elif not any(x is o for x in kept):
+                diffs = record_diffs(it, o, kept[0])
+                if diffs:
+                    msg = altered_message("another actor's stored proposal", diffs)
+            if msg and out["store"] is None:
+                out["store"] = ("bad", [msg])
         new, stored = it.stub_result, ctx["stored"]
         if res is None:
             if ctx["must"] or stored is None or not it.entails("=", stored, new):
@@ -667,8 +789,9 @@ def check_store(run: Run, prog: Program) -> None:
             o.post = o.post["store"]
         else:
             outs_r.append(o)
-    _report_orderings(run, "C04.STORE", ct, outs, "every proposal, whatever its shape, is (as that object) in "
-                      "the bucket the sweep runs over")
+    _report_orderings(run, "C04.STORE", ct, outs, "every proposal, whatever its shape, is in the bucket the "
+                      "sweep runs over - as that object or as a record that says the same - and the other actors' "
+                      "proposals stay as they were")
     _report_orderings(run, "C04.RESULT", ct, outs_r, "the freshly computed target is returned unless unchanged "
                       "and not insisted on")
     if len(outs) < 24:
@@ -921,6 +1044,49 @@ def structural_controls(prog: Program) -> list[tuple[str, str, str, str, str]]: 
                                  f"{' ' * (first.col_offset + 4)}return None\n{' ' * first.col_offset}{seg}"))
     add("re-evaluation skipped when a target is remembered", MAT, edits, "C04.RESULT")
 
+    # 13. the proposal is clipped to the system bounds of the call before it is stored
+    # 14. storing a proposal throws away what the other actors of the group have proposed
+    me, ids, prop, sysb_p, _must = ct.params
+    mod_tree = prog.module(MAT).tree
+    imp = next((n for n in mod_tree.body if isinstance(n, (ast.Import, ast.ImportFrom))
+                and getattr(n, "module", None) != "__future__"), None)
+    for name, text in (
+        ("proposal clipped to the system bounds before it is stored",
+         f"if {prop} is not None and {sysb_p}.inclusion_bounds is not None:\n"
+         f"{{ind}}    {prop} = dataclasses.replace({prop}, bounds=dataclasses.replace({prop}.bounds, "
+         f"lower={prop}.bounds.lower and max({prop}.bounds.lower, {sysb_p}.inclusion_bounds.lower)))\n"),
+        ("storing a proposal drops the other actors' proposals",
+         f"if {prop} is not None:\n{{ind}}    {me}.{BUCKETS}.pop({ids}, None)\n"),
+    ):
+        edits = []
+        if body:
+            first = body[0]
+            seg = ast.get_source_segment(mat_src, first)
+            if seg:
+                ind = " " * first.col_offset
+                edits.append((first, text.format(ind=ind) + ind + seg))
+                if imp is not None and "dataclasses" not in prog.module(MAT).imports:
+                    iseg = ast.get_source_segment(mat_src, imp)
+                    if iseg:
+                        edits.append((imp, "import dataclasses\n" + iseg))
+        add(name, MAT, edits, "C04.STORE")
+
+    # 15. the bucket of a group becomes an object of a container class of the tree
+    edits = []
+    try:
+        cands = [v for v in bucket_values(prog, ct.cls, BUCKETS, []) if v.kind == "builtin" and v.fn.module is prog.module(MAT)]
+    except AnalysisError:
+        cands = []
+    mine = [v for v in cands if v.fn.node is ct.node] or cands
+    if mine:
+        edits.append((mine[0].node, "_ControlBucket()"))
+        src = prog.module(MAT).source
+        out.append(("bucket kept in a container class of the tree", MAT, src,
+                    splice(src, edits) + "\n\nclass _ControlBucket(set):\n    def add(self, item):\n"
+                    "        if len(self) < 4:\n            super().add(item)\n", "C04.BUCKET"))
+    else:
+        add("bucket kept in a container class of the tree", MAT, [], "C04.BUCKET")
+
     # 11. the target sweep runs from the lowest to the highest priority
     edits = []
     for n in (n for st in list(swc.pro) + [swc.loop.iter] for n in ast.walk(st)):
@@ -936,6 +1102,10 @@ def structural_controls(prog: Program) -> list[tuple[str, str, str, str, str]]: 
 
 def run_rules(run: Run, prog: Program, tier: str = "quick") -> None:
     check_keep(run, prog)
+    if not check_bucket(run, prog):
+        # the bucket is an object of a class of the tree: what its methods do to the set of live proposals
+        # is not something the abstract runs below may assume (they would end in "not modelled")
+        return
     try:
         calc_sweep(prog)
     except NotReached as exc:
@@ -971,6 +1141,8 @@ def check(run: Run, prog: Program, tier: str) -> str:
     run.rule("C04.RESULT", "calculate_target_power returns the freshly computed target unless it equals the "
              "remembered one and the caller does not insist")
     run.rule("C04.DESC", "both sweeps visit the proposals in descending priority order")
+    run.rule("C04.BUCKET", "a group's live proposals are kept in a container of the language (set / list / dict), "
+             "not in a container class of the tree whose correctness the property would then rest on")
     check_quantity_truthiness(run)
     run_rules(run, prog, tier)
     run.floor("C04.SIB", 100)
@@ -982,6 +1154,7 @@ def check(run: Run, prog: Program, tier: str) -> str:
     run.floor("C04.STORE", 24)
     run.floor("C04.RESULT", 24)
     run.floor("C04.DESC", 2)
+    run.floor("C04.BUCKET", 1)
     from ..engine.controls import run_controls
 
     def select(expect: str):
@@ -991,7 +1164,8 @@ def check(run: Run, prog: Program, tier: str) -> str:
                 "C04.TIE": lambda r, p: check_adopt(r, p, "quick"),
                 "C04.REPORT": lambda r, p: check_report(r, p),
                 "C04.STORE": lambda r, p: check_store(r, p), "C04.RESULT": lambda r, p: check_store(r, p),
-                "C04.DESC": lambda r, p: check_order(r, p)}[expect]
+                "C04.DESC": lambda r, p: check_order(r, p),
+                "C04.BUCKET": lambda r, p: check_bucket(r, p)}[expect]
 
     # on a violating tree the controls are skipped by the engine; do not even try to locate their sites
     controls = [] if run.violations else structural_controls(prog)
